@@ -84,9 +84,39 @@ fn replay<P: Property>(p: &P, j: &J, path: &str) -> i32 {
     runner::replay_file(p, j, path)
 }
 
+fn show<P: Property>(p: &P, seed: &u64, index: &u64) -> i32 {
+    runner::set_quiet(true);
+    let (out, tape) = runner::run_index(p, *seed, *index, &prop::Opts { describe: true });
+    runner::set_quiet(false);
+    match out {
+        Err(e) => {
+            eprintln!("harness error: {}", e);
+            EXIT_HARNESS
+        }
+        Ok(o) => {
+            println!("run {} seed {} tape_len {}", index, seed, tape.len());
+            if let Some(d) = &o.desc {
+                println!("scenario: {}", d.to_string());
+            }
+            for l in o.trace.iter().take(60) {
+                println!("  {}", l);
+            }
+            println!(
+                "nontrivial={} calls={} items={} skipped={:?} violation={:?}",
+                o.nontrivial,
+                o.calls,
+                o.items,
+                o.skipped,
+                o.violation.map(|v| (v.class, v.message))
+            );
+            0
+        }
+    }
+}
+
 fn usage() -> i32 {
     eprintln!(
-        "usage:\n  egsim check <property> [--tier quick|thorough] [--seed N] [--runs N] [--threads N] [--dump-hashes FILE] [--no-evidence]\n  egsim replay <file>\n  egsim list"
+        "usage:\n  egsim check <property> [--tier quick|thorough] [--seed N] [--runs N] [--threads N] [--dump-hashes FILE] [--no-evidence]\n  egsim replay <file>\n  egsim show <property> <run index> [seed]\n  egsim list"
     );
     EXIT_HARNESS
 }
@@ -182,6 +212,15 @@ fn real_main(args: &[String]) -> i32 {
                 wall_cap_s: if tier == Tier::Quick { 600.0 } else { 6.0 * 3600.0 },
             };
             dispatch!(id, batch, &cfg)
+        }
+        "show" => {
+            if args.len() < 3 {
+                return usage();
+            }
+            let id = args[1].as_str();
+            let index: u64 = args[2].parse().unwrap_or(0);
+            let seed: u64 = args.get(3).and_then(|s| s.parse().ok()).unwrap_or(DEFAULT_SEED);
+            dispatch!(id, show, &seed, &index)
         }
         "replay" => {
             if args.len() < 2 {
